@@ -76,6 +76,9 @@ def random_geometry_recipe(rng, kind):
         if u < 0.008:
             # more than 65535 vertices with many faces / with fewer than 65535 faces (an unmerged soup)
             r["mesh"]["base"], r["shape"] = "grid260", ("large_index" if u < 0.004 else "large_soup")
+        elif u < 0.012:
+            # between 32768 and 65535 vertices: indices that fit unsigned but not signed 16-bit integers
+            r["mesh"]["base"], r["shape"] = "grid190", "large_index"
         r["colors"] = rng.choice([None, None, "vertex", "face", "texture"])
         r["attributes"] = rng.random() < 0.3
         # a name is free text: writers put it in headers, where it may look like a keyword of the format
@@ -317,8 +320,13 @@ def content(obj):
             pair = np.array([s_[0], s_[-1]])
             return pair[np.lexsort(pair.T[::-1])]
 
+        # length and extent of the curves themselves (arcs analytically: how many chords the library draws an arc with is a
+        # rounding-level decision of its discretiser, not something a file stores)
+        measures = [_curve_measure(e, obj.vertices, s_) for e, s_ in zip(obj.entities, segs)]
+        lo = np.min([m_[1] for m_ in measures], axis=0) if measures else np.zeros(0)
+        hi = np.max([m_[2] for m_ in measures], axis=0) if measures else np.zeros(0)
         return {"kind": "path", "n_entities": len(obj.entities), "kinds": [type(e).__name__ for e in obj.entities], "ends": [ends(e, s_) for e, s_ in zip(obj.entities, segs)],
-                "length": float(sum(np.linalg.norm(np.diff(s_, axis=0), axis=1).sum() for s_ in segs)), "bounds": np.asarray(obj.bounds, dtype=float)}
+                "length": float(sum(m_[0] for m_ in measures)), "bounds": np.array([lo, hi], dtype=float)}
     if isinstance(obj, trimesh.voxel.VoxelGrid):
         pts = np.asarray(obj.points, dtype=float)
         return {"kind": "voxel", "shape": list(obj.shape), "filled": pts[np.lexsort(pts.T[::-1])] if len(pts) else pts}
@@ -357,6 +365,67 @@ def normalise_loaded(loaded, want_kind):
 
 
 # ----------------------------------------------------------------------------- export / load pipes
+BY_NAME = {"stl": ("stl", {}), "stl_ascii": ("stl_ascii", {}), "ply": ("ply", {"encoding": "binary"}), "ply_ascii": ("ply", {"encoding": "ascii"}), "off": ("off", {}), "obj": ("obj", {}),
+           "glb": ("glb", {}), "gltf": ("gltf", {}), "3mf": ("3mf", {}), "dae": ("dae", {}), "xyz": ("xyz", {}), "binvox": ("binvox", {}), "dxf": ("dxf", {}), "svg": ("svg", {})}
+_OPT_KEYS = {"ply": ("vertex_normal", "include_attributes"), "ply_ascii": ("vertex_normal", "include_attributes"), "off": ("digits",), "glb": ("include_normals", "unitize_normals"),
+             "gltf": ("include_normals", "merge_buffers", "embed_buffers"), "obj": ("digits", "include_normals", "include_color"), "xyz": ("delimiter",)}
+
+
+def _curve_measure(e, V, discrete):
+    """(length, lower corner, upper corner) of one entity; planar three-point arcs in closed form."""
+    V = np.asarray(V, dtype=float)
+    P = V[np.asarray(e.points)]
+    if type(e).__name__ != "Arc" or P.shape != (3, 2):
+        d = np.asarray(discrete, dtype=float)
+        return float(np.linalg.norm(np.diff(d, axis=0), axis=1).sum()), d.min(axis=0), d.max(axis=0)
+    (x0, y0), (x1, y1), (x2, y2) = P
+    if getattr(e, "closed", False):
+        # a full circle given by three points on it
+        pass
+    det = 2.0 * (x0 * (y1 - y2) + x1 * (y2 - y0) + x2 * (y0 - y1))
+    cx = ((x0**2 + y0**2) * (y1 - y2) + (x1**2 + y1**2) * (y2 - y0) + (x2**2 + y2**2) * (y0 - y1)) / det
+    cy = ((x0**2 + y0**2) * (x2 - x1) + (x1**2 + y1**2) * (x0 - x2) + (x2**2 + y2**2) * (x1 - x0)) / det
+    r = float(np.hypot(x0 - cx, y0 - cy))
+    if getattr(e, "closed", False):
+        return 2.0 * np.pi * r, np.array([cx - r, cy - r]), np.array([cx + r, cy + r])
+    a0, a1, a2 = (np.arctan2(y - cy, x - cx) for x, y in P)
+    ccw = ((x1 - x0) * (y2 - y1) - (y1 - y0) * (x2 - x1)) > 0
+    span = (a2 - a0) % (2 * np.pi) if ccw else (a0 - a2) % (2 * np.pi)
+    pts = [P[0], P[2]]
+    for k in range(4):
+        ang = k * np.pi / 2
+        off = (ang - a0) % (2 * np.pi) if ccw else (a0 - ang) % (2 * np.pi)
+        if off <= span:
+            pts.append([cx + r * np.cos(ang), cy + r * np.sin(ang)])
+    pts = np.array(pts, dtype=float)
+    return r * float(span), pts.min(axis=0), pts.max(axis=0)
+
+
+def export_by_name(obj, fmt, opts, directory, older=None):
+    """The other public way to export: `obj.export('/some/dir/model.ext')`. The writer creates the file (and its side files) itself.
+    With `older`, another object was exported under the same name before: the directory already holds its files.
+    -> (files found in the directory afterwards, main name, file type for the loader)"""
+    import os
+
+    import trimesh
+
+    ext, kw = BY_NAME[fmt]
+    kw = dict(kw)
+    for k in _OPT_KEYS.get(fmt, ()):
+        if (opts or {}).get(k) is not None:
+            kw[k] = int(opts[k]) if k == "digits" else opts[k]
+    target = os.path.join(directory, "model." + ext)
+    wrap = (lambda o: trimesh.Scene(o)) if fmt == "glb" and isinstance(obj, trimesh.path.path.Path) else (lambda o: o)
+    if older is not None:
+        wrap(older).export(target, **kw)
+    wrap(obj).export(target, **kw)
+    files = {}
+    for n in sorted(os.listdir(directory)):
+        with open(os.path.join(directory, n), "rb") as f:
+            files[n] = f.read()
+    return files, "model." + ext, {"stl_ascii": "stl_ascii", "ply_ascii": "ply"}.get(fmt, ext)
+
+
 def export_payload(obj, fmt, opts=None):
     """-> (files: {name: bytes}, main name, file_type for the loader)"""
     import trimesh
